@@ -192,6 +192,16 @@ def parse_static(inp):
     try:
         r = RTCMReader.parse(msg, validate=validate, labelmsm=lm)
         obs = ("ok", r.payload.hex(), {k: v for k, v in r.__dict__.items() if not k.startswith("_")})
+        # the result is a function of the payload (and label option) alone: its serialised form is the canonical frame of that
+        # payload whatever checksum bytes the parsed buffer carried (C08 validation off, C07, C17)
+        from spec.streams import frame as _frame
+        try:
+            ser = r.serialize()
+        except BaseException as e:  # noqa
+            ser = type(e).__name__
+        if ser != _frame(r.payload):
+            return {"fails": True, "expected": ("serialize() of the result is the canonical frame of its payload", _frame(r.payload).hex()[-12:]),
+                    "observed": ("serialize()", ser.hex()[-12:] if isinstance(ser, bytes) else ser)}
     except BaseException as e:  # noqa
         obs = ("raise", type(e).__name__)
     if validate & 1 and crc_bytes(msg) != 0:
